@@ -50,6 +50,9 @@ G_LIST = {"<start>": ["<list>"], "<list>": ["<item>", "<item>,<list>"],
           "<digit>": ["0", "1", "2", "3"]}
 G_WIDE = {"<start>": ["<row>"], "<row>": ["<c>" * 30, "<c><c>"], "<c>": ["0", "1", "<e>"], "<e>": ["x"]}
 GRAMMARS = {"assgn": G_ASSGN, "block": G_BLOCK, "list": G_LIST, "wide": G_WIDE}
+# only for known-finding witnesses
+G_EPS = {"<start>": ["<a>"], "<a>": ["<c><b>"], "<c>": ["", "y"], "<b>": ["z"]}
+WITNESS_GRAMMARS = dict(GRAMMARS, eps=G_EPS)
 
 # hand-written match expressions per (grammar, nonterminal): lists of bound_elements
 # (str | ("bind", name, type) | ["optional", "tokens"])
@@ -480,6 +483,23 @@ def py_kvac(f):
     return go(f)[1]
 
 
+def py_keps(f, grammar):
+    """Python mirror of EvalFacts.K_mexpr_eps_shape: some match-expression prefix tree has a closed
+    leaf labelled with a nonterminal"""
+    if isinstance(f, L.PropositionalCombinator):
+        return any(py_keps(a, grammar) for a in f.args)
+    if isinstance(f, L.NumericQuantifiedFormula):
+        return py_keps(f.inner_formula, grammar)
+    if isinstance(f, L.QuantifiedFormula):
+        if f.bind_expression is not None:
+            for t, _ in f.bind_expression.to_tree_prefix(f.bound_variable.n_type, grammar):
+                if any(s.children is not None and not s.children and L.is_nonterminal(s.value)
+                       for _, s in spec_sem.nodes(t)):
+                    return True
+        return py_keps(f.inner_formula, grammar)
+    return False
+
+
 def is_wide(tree):
     return any(any(i >= 28 for i in p) for p, _ in spec_sem.nodes(tree))
 
@@ -488,7 +508,7 @@ def is_wide(tree):
 # known findings
 # --------------------------------------------------------------------------
 def finding_witness_outcome(w):
-    g = GRAMMARS[w["grammar"]] if isinstance(w["grammar"], str) else w["grammar"]
+    g = WITNESS_GRAMMARS[w["grammar"]] if isinstance(w["grammar"], str) else w["grammar"]
     tree = tree_from_json(w["tree"]) if "tree" in w else \
         T.from_parse_tree(next(EarleyParser(g).parse(w["input"])))
     formula = w["formula"]
@@ -535,8 +555,8 @@ def replay_known(run):
 # main
 # --------------------------------------------------------------------------
 IMPORTS = "EvalAtoms"
-OK_DEF = ("fun c : formula atom * res TV * res bool * bool * bool * bool => "
-          "let '(f, ev, ck, sp, kv, cmp_spec) := c in "
+OK_DEF = ("fun c : tree * formula atom * res TV * res bool * bool * bool * bool => "
+          "let '(T, f, ev, ck, sp, kv, cmp_spec) := c in "
           "res_eqb tv_eqb (m_evaluate T CST f) ev && res_eqb Bool.eqb (m_check T CST f) ck "
           "&& Bool.eqb (m_kvac T CST f) kv && (negb cmp_spec || Bool.eqb (s_sat T CST f) sp)")
 CST_DEF = f"Definition CST := {g_var(START)}.\n"
@@ -622,7 +642,8 @@ def run(run):
                     solver = e
                 compiled.append((fi, how, ast, src, fobj, solver))
         for ti, t in enumerate(trees):
-            defs = CST_DEF + f"Definition T := {g_tree(t)}.\n"
+            tname = f"T_{gname}_{ti}"
+            defs = f"Definition {tname} := {g_tree(t)}.\n"
             cs, ms = [], []
             wide = is_wide(t)
             for (fi, how, ast, src, fobj, solver) in compiled:
@@ -646,9 +667,10 @@ def run(run):
                     meta["unencodable"] = str(e)
                     lit = None
                 meta["kvac"] = kv
+                meta["keps"] = py_keps(fobj, g)
                 if lit is not None:
                     cmp_spec = sp[0] == "ok"
-                    cs.append(f"({lit}, {g_out_tv(ev)}, {g_out_b(ck)}, {g_bool(sp[1] if cmp_spec else False)}, "
+                    cs.append(f"({tname}, {lit}, {g_out_tv(ev)}, {g_out_b(ck)}, {g_bool(sp[1] if cmp_spec else False)}, "
                               f"{g_bool(kv)}, {g_bool(cmp_spec)})")
                     ms.append(meta)
                 if not agrees_with_spec(ev, ck, sp):
@@ -656,8 +678,13 @@ def run(run):
                 if len(run.cov["samples"]) < 5 and fi == ti:
                     run.sample({k: meta[k] for k in ("grammar", "input", "formula", "how", "evaluate", "check", "spec")})
             if cs:
-                shards.append((defs, cs))
-                smeta.append(ms)
+                # a few trees per coqc process (loading the compiled model dominates small shards)
+                if shards and len(shards[-1][1]) + len(cs) <= 150:
+                    shards[-1] = (shards[-1][0] + defs, shards[-1][1] + cs)
+                    smeta[-1] = smeta[-1] + ms
+                else:
+                    shards.append((CST_DEF + defs, cs))
+                    smeta.append(ms)
 
     t_3 = time.time()
     # numeric quantifiers: second strategy (eliminate_quantifiers + Z3), checked against the spec only
@@ -730,7 +757,8 @@ def run(run):
     run.cov["disagreements_checked"] = len(corr_bad) + len(spec_failures)
     unknown_fail = []
     for m in spec_failures:
-        cls = "K_vacuous_forall" if m.get("kvac") else "K_wide" if m.get("wide") else None
+        cls = ("K_vacuous_forall" if m.get("kvac") else "K_wide" if m.get("wide")
+               else "K_mexpr_eps_shape" if m.get("keps") else None)
         if cls and cls in known_by_class:
             run.known(known_by_class[cls]["what"])
             run.cov.setdefault("known_class_hits", {}).setdefault(cls, 0)
